@@ -104,3 +104,84 @@ func verifC17PlainErrors(maxEx int) {
 		verifReach("network-failure")
 	}
 }
+
+// verifUDPReplyConn is a UDP "connection" to the upstream answering with a reply of
+// the chosen kind: 0 a valid answer, 1 an answer with a foreign ID, 2 an answer for
+// another name, 3 a valid but truncated answer, 4 a network error.
+type verifUDPReplyConn struct {
+	net.Conn
+	kind  int
+	wrote []byte
+}
+
+func (c *verifUDPReplyConn) SetDeadline(time.Time) error { return nil }
+func (c *verifUDPReplyConn) Close() error                { return nil }
+func (c *verifUDPReplyConn) Write(b []byte) (int, error) {
+	c.wrote = append([]byte(nil), b...)
+	return len(b), nil
+}
+func (c *verifUDPReplyConn) Read(p []byte) (int, error) {
+	if c.kind == 4 {
+		return 0, verifNetErr{}
+	}
+	req := &dns.Msg{}
+	if err := req.Unpack(c.wrote); err != nil {
+		return 0, err
+	}
+	resp := (&dns.Msg{}).SetReply(req)
+	resp.Answer = []dns.RR{&dns.A{Hdr: dns.RR_Header{Name: req.Question[0].Name, Rrtype: dns.TypeA, Class: dns.ClassINET, Ttl: 60}, A: net.IP{192, 0, 2, 9}}}
+	switch c.kind {
+	case 1:
+		resp.Id = req.Id + 1
+	case 2:
+		resp.Question[0].Name = "other.example."
+	case 3:
+		resp.Truncated = true
+	}
+	b, err := resp.Pack()
+	if err != nil {
+		return 0, err
+	}
+	return copy(p, b), nil
+}
+
+// VerifC17AnyNetwork: an upstream used over UDP with TCP as the retry path hands the
+// forwarding handler either a reply that belongs to the request (ID, name, type) or
+// an error: a foreign or mismatched UDP reply is never returned as the answer, whatever
+// happens to the TCP retry, and a failure of both attempts that is due to the network
+// stays a network error (so that the fallback upstream is tried).
+//
+//verif:harness name=H17e-any-network tier=quick,thorough bounds="one upstream with network 'any'; UDP reply from {valid, foreign ID, other name, truncated, network error}; TCP retry: dial refused, or connection whose write / read work, fail with a net.Error or hit EOF" reach=answered,failed,tcp-retry maxpaths=200000
+//verif:assume sockets are replaced by scripted connections; timeouts are not modelled
+func VerifC17AnyNetwork() {
+	u := NewUpstreamPlain(&UpstreamPlainConfig{Network: NetworkAny, Address: netip.MustParseAddrPort("192.0.2.53:53")})
+	udpKind := verifChoice(5)
+	u.connsPoolUDP = pool.NewPool(2, func(ctx context.Context) (net.Conn, error) {
+		return &verifUDPReplyConn{kind: udpKind}, nil
+	})
+	tcpDials := 0
+	u.connsPoolTCP = pool.NewPool(2, func(ctx context.Context) (net.Conn, error) {
+		tcpDials++
+		if verifChoice(2) == 1 {
+			return nil, verifNetErr{}
+		}
+		return &verifScriptConn{writeOut: verifChoice(3), readOut: verifChoice(3)}, nil
+	})
+	req := &dns.Msg{}
+	req.SetQuestion("example.org.", dns.TypeA)
+	req.Id = 0x1234
+	resp, _, err := u.Exchange(context.Background(), req)
+	if tcpDials > 0 {
+		verifReach("tcp-retry")
+	}
+	if err == nil {
+		verifAssert("answer-belongs-to-the-request", resp != nil && resp.Id == req.Id && resp.Response && len(resp.Question) == 1 && resp.Question[0].Name == "example.org." && resp.Question[0].Qtype == dns.TypeA)
+		verifReach("answered")
+		return
+	}
+	verifReach("failed")
+	if udpKind == 4 {
+		var ne net.Error
+		verifAssert("network-failure-stays-recognisable", errors.As(err, &ne))
+	}
+}
